@@ -1,9 +1,8 @@
 /-
   C03 — REQ returns only the reply to its current request.  Property theorems only.
-  Model: Model/Proto/Req.lean.  (The full history invariant `recv_is_current` is kept below as stated and as
-  proved so far; see the note at `recv_is_current_partial`.)
+  Model: Model/Proto/Req.lean; the history invariant is proved in Model/Proto/ReqInv.lean.
 -/
-import Model.Proto.ReqLemmas
+import Model.Proto.ReqInv
 namespace Props.C03
 open Model Model.Proto
 
@@ -41,8 +40,9 @@ theorem at_most_one_reply (s : Req.State) (now : Nat) (p b : String) (rid c : Na
   rw [hfind] at hr
   simp only [List.mem_singleton] at hr
   subst hr
-  simp only [Req.wake_ctxByID, Req.setCtx_ctxByID, Req.cancelSend_ctxByID, List.mem_filter, bne_iff_ne, ne_eq] at he
-  exact he.2
+  have he' := Req.wake_ctxByID _ _ e he
+  simp only [Req.setCtx_ctxByID, Req.cancelSend_ctxByID, List.mem_filter, bne_iff_ne, ne_eq] at he'
+  exact he'.2
 
 /-- Recv with no request outstanding fails with a protocol-state error, at once and without any effect -/
 theorem recv_without_request (s : Req.State) (now : Nat) (call ctx : String) (c : Req.Ctx)
@@ -53,11 +53,23 @@ theorem recv_without_request (s : Req.State) (now : Nat) (call ctx : String) (c 
     cases h1 : c.failNoPeers <;> cases h2 : s.pipes.isEmpty <;> simp_all
   simp [Req.core, hget, hopen.1, hopen.2, this, hnone]
 
-/-- `recv_is_current` (full statement, NOT yet proved as an invariant over all histories): in every reachable state
-    every entry (ctx, id of the delivered reply, id of the context's request at that moment) of the ghost record
-    `delivered` has equal ids.  What is proved is the step-level content (`stale_foreign_malformed_dropped`,
-    `at_most_one_reply`, `reply_stored_only_for_registered`); the history-level statement is validated on every driven
-    history by the correspondence runs (the driver replays `delivered`) and by the independent oracle. -/
+/-- **recv_is_current** — in every reachable state (any history of Sends and Recvs on any number of contexts, replies
+    of any content arriving on any pipe — current, stale, cancelled, answered, another context's, never issued, without
+    the request bit, too short, duplicated —, pipes added, lost, slow or failing, retry and deadline timers firing at any
+    admissible time, contexts and the socket closed at any point) every reply that Recv has returned carried the id of
+    the context's request at that moment: the ghost record `delivered` holds only entries (context, id carried by the
+    reply, id of the context's request) with equal ids -/
+theorem recv_is_current (s : Req.State) (h : Req.Reach s) : ∀ d ∈ s.delivered, d.2.1 = d.2.2 :=
+  (Req.reach_J s h).deliv
+
+/-- … and, in every reachable state, a reply stored for a context carries the id of that context's current request, and
+    every registered id is the current request of the context it is registered for -/
+theorem stored_and_registered_are_current (s : Req.State) (h : Req.Reach s) :
+    (∀ y ∈ s.ctxs, ∀ m, y.repMsg = some m → beDec m.1 = Req.enc y.reqID) ∧
+    (∀ e ∈ s.ctxByID, ∀ y ∈ s.ctxs, y.id = e.2 → y.reqID = e.1) :=
+  ⟨(Req.reach_J s h).rep, (Req.reach_J s h).reg⟩
+
+/-- the id carried by a reply that gets stored is the registered one -/
 theorem reply_stored_only_for_registered (s : Req.State) (now : Nat) (p b : String) (rid c : Nat)
     (hp : (Req.getPipe s (natOf p)).isSome = true) (hl : ¬ (bytesOf b).length < 4)
     (hfind : ({ s with readyQ := Req.swapFront s.readyQ (natOf p) } : Req.State).ctxByID.find?
